@@ -49,6 +49,23 @@ def rand_tree_pair(rng, nfiles=None, plain_names=True, maxlen=10, allow_empty=Tr
             ch[p2] = "rename-to"
         elif kind == "chmod":
             A[p] = (a, 0o644); B[p] = (a, 0o755)
+        elif kind == "create-empty":      # git only: `new file mode` with no hunk
+            B[p] = ([], 0o644)
+        elif kind == "delete-empty":      # git only: `deleted file mode` with no hunk
+            A[p] = ([], mode)
+        elif kind == "copy-edit":         # git -C: the original is edited AND an (edited) copy of the old content is added
+            d2 = rng.choice(DIRS); nm2 = rng.choice(names)
+            p2 = (d2 + b"/" + nm2) if d2 else nm2
+            if p2 in used or any(q.startswith(p2 + b"/") or p2.startswith(q + b"/") for q in used):
+                used.discard(p); continue
+            used.add(p2)
+            a = [(b"common line %d" % i, "L") for i in range(rng.randint(8, 14))]
+            b1 = list(a); b1[rng.randrange(len(b1))] = (b"edited in place", "L")
+            b2 = list(a)
+            if rng.random() < 0.7:
+                b2[rng.randrange(len(b2))] = (b"edited in the copy", "L")
+            A[p] = (a, mode); B[p] = (b1, mode); B[p2] = (b2, mode)
+            ch[p2] = "copy-to"; kind = "modify"
         ch[p] = kind
     return A, B, ch
 
@@ -125,6 +142,8 @@ class Producers:
         args = ["diff", "--cached", f"-U{ctx}", "HEAD"]
         if renames:
             args.insert(2, "-M30%")
+        if "copy-to" in ch.values():
+            args[2:2] = ["-C30%", "--find-copies-harder"]
         r = g(*args)
         shutil.rmtree(top, ignore_errors=True)
         return r.stdout
